@@ -16,7 +16,7 @@
 (***************************************************************************)
 EXTENDS Integers, Sequences, FiniteSets, TLC
 
-Mergeable(c) == c.k # "anon"
+Mergeable(c) == c.k \notin {"anon", "other"}     \* "other": any object a custom Importable handed out
 Same(a, b) == a.k = b.k /\ a.v = b.v /\ Mergeable(a)
 
 \* pass 1: fold over the pool
